@@ -531,3 +531,48 @@ pub fn parse_program(e: &Sexp) -> R<asp::Program> {
         _ => bad("program", e),
     }
 }
+
+// ---------------------------------------------------------------- problems
+use anthem::verif::problem as pb;
+
+pub fn prole(r: &pb::Role) -> Sexp {
+    a(match r {
+        pb::Role::Axiom => "axiom",
+        pb::Role::Conjecture => "conjecture",
+    })
+}
+pub fn parse_prole(e: &Sexp) -> R<pb::Role> {
+    match e.as_str()? {
+        "axiom" => Ok(pb::Role::Axiom),
+        "conjecture" => Ok(pb::Role::Conjecture),
+        _ => bad("problem role", e),
+    }
+}
+pub fn pformula(x: &pb::AnnotatedFormula) -> Sexp {
+    tagged("pf", vec![s(&x.name), prole(&x.role), formula(&x.formula)])
+}
+pub fn parse_pformula(e: &Sexp) -> R<pb::AnnotatedFormula> {
+    match e.tag() {
+        Some(("pf", [n, r, f])) => Ok(pb::AnnotatedFormula {
+            name: string_of(n)?,
+            role: parse_prole(r)?,
+            formula: parse_formula(f)?,
+        }),
+        _ => bad("problem formula", e),
+    }
+}
+pub fn problem(p: &pb::Problem) -> Sexp {
+    let mut v = vec![s(&p.name)];
+    v.extend(p.formulas.iter().map(pformula));
+    tagged("problem", v)
+}
+pub fn parse_problem(e: &Sexp) -> R<pb::Problem> {
+    match e.tag() {
+        Some(("problem", [n, fs @ ..])) => Ok(pb::Problem {
+            name: string_of(n)?,
+            interpretation: pb::Interpretation::Standard,
+            formulas: fs.iter().map(parse_pformula).collect::<R<Vec<_>>>()?,
+        }),
+        _ => bad("problem", e),
+    }
+}
